@@ -40,7 +40,7 @@ RT_MODES = ["vasp", "abinit", "aims", "castep", "dftbp", "elk", "lammps", "pwmat
 
 
 def units(tier):
-    u = [("units", c) for c in CALCS] + [("table", 0), ("lattice", "wien2k"), ("lattice", "cells"), ("lattice", "cp2k"), ("sorting", 3), ("agreement", 0)] + [("wien2k", c, k) for c in ("rocksalt", "rocksalt111", "tetragonal") for k in ("first", "last", "mid")] + [("roundtrip", m) for m in RT_MODES] + [("magmom", "vasp")]
+    u = [("units", c) for c in CALCS] + [("table", 0), ("lattice", "wien2k"), ("lattice", "cells"), ("lattice", "cp2k"), ("sorting", 3), ("agreement", 0)] + [("wien2k", c, k) for c in ("rocksalt", "rocksalt111", "tetragonal") for k in ("first", "last", "mid")] + [("roundtrip", m) for m in RT_MODES] + [("magmom", "vasp"), ("forces", "lammps")]
     if tier == "thorough":
         u += [("sorting", 4)]
     return u
@@ -761,10 +761,59 @@ def roundtrip_unit(u, res):
     return res
 
 
+def forces_unit(u, res):
+    """Calculator output that names its atoms: the LAMMPS dump (`id type x y z fx fy fz`, written in arbitrary line order by parallel runs
+    without `dump_modify sort id`).  For EVERY order of the lines of a 4-atom dump the forces parse_set_of_forces returns for atom i are
+    those of the line with id i (minus the common drift); a dump in which an id is missing (another one doubled) is refused.  Exhaustive
+    enumeration of ground facts (text parsing has no solver theory), not a solver claim."""
+    import io, itertools, os, tempfile, shutil
+    from phonopy.interface.lammps import parse_set_of_forces, LammpsForcesLoader
+    n = 4
+    F = np.array([[0.5, -1.25, 2.0], [3.5, 0.25, -0.75], [-2.0, 1.5, 0.125], [1.0, -3.0, 0.625]])
+    X = np.array([[0.1, 0.2, 0.3], [1.1, 2.2, 0.4], [2.5, 0.7, 1.9], [0.9, 1.8, 2.7]])
+
+    def dump(ids, lines_of):
+        head = "ITEM: TIMESTEP\n0\nITEM: NUMBER OF ATOMS\n%d\nITEM: BOX BOUNDS xy xz yz pp pp pp\n0.0 4.0 0.0\n0.0 4.0 0.0\n0.0 4.0 0.0\nITEM: ATOMS id type x y z fx fy fz\n" % n
+        return head + "".join("%d %d %15.8f %15.8f %15.8f %15.8f %15.8f %15.8f\n" % ((i, 1 + (a % 2)) + tuple(X[a]) + tuple(F[a])) for i, a in zip(ids, lines_of))
+    d = tempfile.mkdtemp(prefix="verif_c17_")
+    bad = None; nperm = 0
+    try:
+        fn = os.path.join(d, "forces.0")
+        for perm in itertools.permutations(range(n)):
+            nperm += 1
+            open(fn, "w").write(dump([a + 1 for a in perm], perm))         # line k carries atom perm[k] with id perm[k]+1
+            try:
+                out = parse_set_of_forces(n, [fn], verbose=False)
+                got = np.array(out[0]) if len(out) == 1 else None
+            except Exception as exc:
+                got = None
+            want = F - F.mean(axis=0)
+            if got is None or got.shape != (n, 3) or np.abs(got - want).max() > 1e-7:
+                bad = bad or "LAMMPS dump with lines in id order %s: forces %s instead of %s" % ([a + 1 for a in perm], None if got is None else np.round(got, 4).tolist(), np.round(want, 4).tolist())
+        res.queries.append({"name": "LAMMPS forces are placed by atom id for all %d line orders of a %d-atom dump [ground facts]" % (nperm, n), "verdict": "unsat" if bad is None else "sat", "seconds": 0.0, "nvars": 0, "nontrivial": False, "hash": "ground"})
+        if bad:
+            res.violations.append({"key": "%s:forces:lammps:order" % PID, "what": bad, "replay": {}})
+        # refusal: id 2 twice, id 3 missing
+        open(fn, "w").write(dump([1, 2, 2, 4], [0, 1, 2, 3]))
+        try:
+            out = parse_set_of_forces(n, [fn], verbose=False)
+            refused = len(out) == 0
+        except Exception:
+            refused = True
+        res.queries.append({"name": "LAMMPS dump with a doubled and a missing id is refused [ground fact]", "verdict": "unsat" if refused else "sat", "seconds": 0.0, "nvars": 0, "nontrivial": False, "hash": "ground"})
+        if not refused:
+            res.violations.append({"key": "%s:forces:lammps:refuse" % PID, "what": "a LAMMPS dump with ids 1,2,2,4 (id 3 missing) is accepted", "replay": {}})
+    finally:
+        shutil.rmtree(d, ignore_errors=True)
+    res.twins.append({"name": "forces twin", "verdict": "sat"})
+    res.samples.append({"unit": res.unit, "orders": nperm})
+    return res
+
+
 def run_unit(u):
     res = Result("/".join(str(x) for x in u))
     harness.setup()
-    return {"units": units_unit, "table": table_unit, "lattice": lattice_unit, "sorting": sorting_unit, "agreement": agreement_unit, "wien2k": wien2k_unit, "roundtrip": roundtrip_unit, "magmom": magmom_unit}[u[0]](u, res)
+    return {"units": units_unit, "table": table_unit, "lattice": lattice_unit, "sorting": sorting_unit, "agreement": agreement_unit, "wien2k": wien2k_unit, "roundtrip": roundtrip_unit, "magmom": magmom_unit, "forces": forces_unit}[u[0]](u, res)
 
 
 def main(tier, seed):
